@@ -669,8 +669,66 @@ class OpGen:
     def g_restart(self):
         return {'op': 'restart'}
 
+    def _mass(self, isdir):
+        """Macro-op: many siblings in one parent, so that directory extents, UDF FID areas and
+        path tables cross their sector boundaries (1 -> 2 -> n sectors)."""
+        m = self.m
+        r = self.ra
+        n = r.choice((12, 20, 30, 45, 70)) if r.random() < 0.93 else r.choice((150, 300))
+        nss = self._targets()
+        parents = {}
+        for ns in nss:
+            p = self._pick_dir(ns, self._iso_maxdepth_for_dir() if ns == 'iso' else self.maxdepth)
+            if p is None:
+                return None
+            if ns == 'iso' and not (m.rr or m.cfg['level'] == 4) and m.depth(p) >= 7:
+                return None
+            parents[ns] = p
+        out = []
+        used = {ns: set(m.get(ns, parents[ns]).children) for ns in nss}
+        used_rr = {ch.rr for ch in m.get('iso', parents['iso']).children.values()} if 'iso' in nss else set()
+        lvl = m.cfg['level']
+        for i in range(n):
+            op = {'op': 'add_dir'} if isdir else {'op': 'add_fp', 'blob': self.next_blob, 'len': r.choice((0, 1, 100, 2048)), 'route': 'fp'}
+            ok = True
+            for ns in nss:
+                if ns == 'iso':
+                    stem = ('D%04d' if isdir else 'F%04d') % i
+                    if lvl >= 2 and r.random() < 0.5:
+                        stem += ''.join(r.choice(DCHARS) for _ in range(r.choice((3, 10, 20))))
+                    stem = stem[:8] if lvl == 1 else stem[:30]
+                    nm = stem if isdir else stem + '.;1'
+                    if nm in used[ns] or any(k.split(';')[0] == nm.split(';')[0] for k in used[ns]):
+                        ok = False
+                        break
+                    used[ns].add(nm)
+                    op['iso'] = M.join(parents[ns], nm)
+                    if m.rr:
+                        rn = 'm%d-%s' % (i, ''.join(r.choice(RRCHARS) for _ in range(r.choice((0, 4, 40, 120)))))
+                        if rn in used_rr:
+                            ok = False
+                            break
+                        used_rr.add(rn)
+                        op['rr'] = rn
+                else:
+                    nm = ('n%d ' % i) + ''.join(r.choice(RRCHARS + UNI_BMP) for _ in range(r.choice((0, 5, 20, 40))))
+                    nm = nm[:60]
+                    while len(nm.encode('utf-8')) > 64:
+                        nm = nm[:-1]
+                    if nm in used[ns] or nm in ('.', '..'):
+                        ok = False
+                        break
+                    used[ns].add(nm)
+                    op[ns] = M.join(parents[ns], nm)
+            if not ok:
+                continue
+            if not isdir:
+                self.next_blob += 1
+            out.append(op)
+        return out or None
+
     def g_mass_dirs(self):
-        return None
+        return self._mass(True)
 
     def g_mass_files(self):
-        return None
+        return self._mass(False)
